@@ -159,6 +159,38 @@ func (g *gen) postControllers() {
 		}
 		return false
 	}
+	// endpoints whose controller package may import pkg (first / last such endpoint, distinct)
+	seeing := func(pkgA, pkgB string) (a, b site, ok bool) {
+		ai, bi := -1, -1
+		for i, e := range eps {
+			if visible(p.Controllers[e.ci].Pkg, pkgA) {
+				ai = i
+				break
+			}
+		}
+		for i := len(eps) - 1; i >= 0; i-- {
+			if i != ai && visible(p.Controllers[eps[i].ci].Pkg, pkgB) {
+				bi = i
+				break
+			}
+		}
+		if ai < 0 || bi < 0 {
+			return site{}, site{}, false
+		}
+		return eps[ai], eps[bi], true
+	}
+	otherPkg := func(not string) string {
+		best := ""
+		for _, pk := range p.Pkgs {
+			if pk.Key == not || pk.Key == "hctx" || pk.Key == "htime" {
+				continue
+			}
+			if best == "" || (pk.Key != "ctl" && pk.Key != "ctl2") {
+				best = pk.Key
+			}
+		}
+		return best
+	}
 	if g.lookalike != "" {
 		name := map[string]string{"hctx": "Context", "htime": "Time"}[g.lookalike]
 		for _, s := range eps {
@@ -184,6 +216,23 @@ func (g *gen) postControllers() {
 			}
 		}
 	}
+	if g.prof.SameNameTypes && g.prof.Models > 0 && g.chance(0.6) {
+		// versioned sibling packages (no imports between them, all matched by the globs, so the loader
+		// parses them concurrently), each with its own controller and its own struct of one shared name
+		name := g.fresh("Account")
+		for i, k := range []string{"alt1", "alt2", "alt3"} {
+			dir := fmt.Sprintf("api/v%d", i+1)
+			p.Pkgs = append(p.Pkgs, Pkg{Key: k, Dir: dir, Name: fmt.Sprintf("v%d", i+1)})
+			p.Config.Globs = append(p.Config.Globs, "./"+dir+"/*.go")
+			p.Structs = append(p.Structs, Struct{Name: name, Pkg: k, Fields: []Field{{GoName: fmt.Sprintf("OnlyInV%d", i+1), Type: Prim("string"), JSONName: fmt.Sprintf("onlyInV%d", i+1)}, {GoName: "Rev", Type: Prim([]string{"int", "int64", "string"}[i]), JSONName: "rev"}}})
+			t := Named(k, name)
+			cn := g.fresh("AccountsCtl")
+			c := Controller{Name: cn, Pkg: k, Files: []string{fmt.Sprintf("%s_%s_0.go", strings.ToLower(cn), k)}, Route: fmt.Sprintf("/v%d/accounts", i+1), Tag: fmt.Sprintf("Accounts v%d", i+1)}
+			c.Methods = append(c.Methods, Method{Name: g.fresh("ReadAccount"), Verb: "GET", Route: "/read", Ret: &t})
+			p.Controllers = append(p.Controllers, c)
+		}
+		p.SetFeature("same-struct-name-in-sibling-controller-packages")
+	}
 	if g.prof.SameNameTypes && g.prof.Models > 0 && len(eps) >= 2 {
 		// a struct twin: same type name, another package, other fields; both used as results
 		var src *Struct
@@ -196,38 +245,37 @@ func (g *gen) postControllers() {
 		}
 		other := ""
 		if src != nil {
-			for _, pk := range p.Pkgs {
-				if pk.Key != src.Pkg && pk.Key != "hctx" && pk.Key != "htime" && pk.Key != "ctl" && pk.Key != "ctl2" {
-					other = pk.Key
-				}
-			}
+			other = otherPkg(src.Pkg)
 		}
 		if other != "" && g.chance(0.6) {
 			srcT, twinT := Named(src.Pkg, src.Name), Named(other, src.Name)
 			p.Structs = append(p.Structs, Struct{Name: src.Name, Pkg: other, Fields: []Field{{GoName: "TwinOnly", Type: Prim("string"), JSONName: "twinOnly"}, {GoName: "TwinCount", Type: Prim("int64"), JSONName: "twinCount"}}})
-			a, b := eps[0], eps[len(eps)-1]
-			p.Controllers[a.ci].Methods[a.mi].Ret = &srcT
-			p.Controllers[b.ci].Methods[b.mi].Ret = &twinT
-			p.SetFeature("same-struct-name-two-packages")
+			if a, b, ok := seeing(src.Pkg, other); ok {
+				p.Controllers[a.ci].Methods[a.mi].Ret = &srcT
+				p.Controllers[b.ci].Methods[b.mi].Ret = &twinT
+				p.SetFeature("same-struct-name-two-packages")
+			} else {
+				p.Structs = p.Structs[:len(p.Structs)-1]
+			}
 		}
 	}
 	if g.prof.SameNameTypes && len(p.Enums) > 0 && len(eps) >= 2 {
 		src := p.Enums[0]
-		other := ""
-		for _, pk := range p.Pkgs {
-			if pk.Key != src.Pkg && pk.Key != "hctx" && pk.Key != "htime" && pk.Key != "ctl" && pk.Key != "ctl2" {
-				other = pk.Key
-			}
-		}
+		other := otherPkg(src.Pkg)
 		if other != "" && g.chance(0.5) {
 			twin := src
 			twin.Pkg = other
 			twin.Decoys = nil
 			twin.Values = append([]EnumConst{}, src.Values...)
 			p.Enums = append(p.Enums, twin)
-			a, b := eps[0], eps[len(eps)-1]
+			a, b, ok := seeing(src.Pkg, other)
+			if !ok {
+				a, b = eps[0], eps[0]
+			}
 			ma, mb := &p.Controllers[a.ci].Methods[a.mi], &p.Controllers[b.ci].Methods[b.mi]
-			if !hasParam(ma, "kind") && !hasParam(mb, "kind") {
+			if !ok {
+				p.Enums = p.Enums[:len(p.Enums)-1]
+			} else if !hasParam(ma, "kind") && !hasParam(mb, "kind") {
 				ma.Params = append(ma.Params, Param{GoName: "kind", In: "query", Type: Named(src.Pkg, src.Name)})
 				mb.Params = append(mb.Params, Param{GoName: "kind", In: "query", Type: Named(other, src.Name)})
 				p.SetFeature("same-type-name-two-packages-same-parameter-name")
@@ -236,7 +284,7 @@ func (g *gen) postControllers() {
 	}
 }
 
-var pkgRank = map[string]int{"hctx": -1, "htime": -1, "shared": 0, "models": 1, "ctl2": 2, "ctl": 3}
+var pkgRank = map[string]int{"alt1": -2, "alt2": -3, "alt3": -4, "hctx": -1, "htime": -1, "shared": 0, "models": 1, "ctl2": 2, "ctl": 3}
 
 // visible: package `from` may import package `of` (the generator keeps the package graph acyclic).
 func visible(from, of string) bool { return pkgRank[of] <= pkgRank[from] }
@@ -278,6 +326,9 @@ func (g *gen) structsFor(from string, limit int) []Struct {
 func (g *gen) typePkgs() []string {
 	var ks []string
 	for _, pk := range g.p.Pkgs {
+		if strings.HasPrefix(pk.Key, "alt") {
+			continue // sibling leaf packages hold only the planted same-name declarations
+		}
 		ks = append(ks, pk.Key)
 	}
 	return ks
